@@ -204,7 +204,7 @@ impl<'a, F: Float, D: Distance<F>> BallTreeIndex<'a, F, D> {
     ) -> Result<Vec<(Point<F>, usize)>, NnError> {
         if self.dim != point.len() {
             Err(NnError::WrongDimension)
-        } else if self.len == 0 {
+        } else if self.len == 0 || k == 0 {
             Ok(Vec::new())
         } else {
             let mut out: BinaryHeap<MaxHeapElem<_, _>> = BinaryHeap::new();
